@@ -106,6 +106,16 @@ pub fn c19(tier: &str, ops: Option<&[String]>) -> Report {
     }
     rep.distinct = rep.cases;
     rep.exhaustive = true;
+    {
+        // the identifier a client starts from: Pid::default() is a valid identifier like any other
+        use mqtt_proto::Pid;
+        use std::convert::TryFrom;
+        rep.cases += 1;
+        let d = Pid::default();
+        if d.value() == 0 || Pid::try_from(d.value()) != Ok(d) || (d + 5) - 5 != d {
+            rep.fail("pid-default", "Pid::default()".into(), format!("Pid::default() has value {} (identifiers are 1..=65535), try_from of it gives {:?}, (default + 5) - 5 = {}", d.value(), Pid::try_from(d.value()).map(|p| p.value()), ((d + 5) - 5).value()));
+        }
+    }
     rep.sample("pid 65535 1 -> add=1".into());
     rep.sample("pid 1 65535 -> sub=1".into());
     rep.sample("pid 1 1 -> sub=65535".into());
@@ -333,6 +343,23 @@ pub fn c15(tier: &str, seed: u64, ops: Option<&[String]>) -> Report {
             Err(()) => "pattern:overlong",
         });
     }
+    // body-less packets (PINGREQ, PINGRESP, DISCONNECT) with remaining length 0 spelled in 1..4 bytes: the poll
+    // decoder reports 1 + (size of the length field) — the bytes it consumed
+    if ops.is_none() {
+        for cb in [0xc0u8, 0xd0, 0xe0] {
+            for k in 1..=4usize {
+                rep.cases += 1;
+                let mut frame = vec![cb];
+                for j in 0..k {
+                    frame.push(if j + 1 == k { 0x00 } else { 0x80 });
+                }
+                let got = crate::ops::poll_header_probe(&frame);
+                if got != format!("ok {}", 1 + k) {
+                    rep.fail("varint-poll", format!("vib {}", hex(&frame)), format!("poll decoder on a body-less packet whose zero remaining length is spelled in {} byte(s) gave '{}', expected 'ok {}'", k, got, 1 + k));
+                }
+            }
+        }
+    }
     rep.distinct = rep.cases;
     rep.sample("vi 16383 -> 2 bytes ff7f".into());
     rep.sample("vi 268435455 -> 4 bytes ffffff7f".into());
@@ -444,6 +471,22 @@ pub fn c16(tier: &str, seed: u64, ops: Option<&[String]>) -> Report {
             for (what, accepted) in verdicts {
                 if accepted != spec.is_some() {
                     rep.fail("filter-packet-path", format!("tf {}", hex_or_dash(s.as_bytes())), format!("{:?}: {} accepted={} but MQTT says valid={}", s, what, accepted, spec.is_some()));
+                }
+            }
+        }
+    }
+    if ops.is_none() {
+        // EVERY Unicode scalar value as a one-character filter, inside a level, and as a share name
+        for cp in 0..=0x10ffffu32 {
+            if let Some(c) = char::from_u32(cp) {
+                rep.cases += 1;
+                for s in [c.to_string(), format!("a/{}b/+", c), format!("$share/{}/t", c)] {
+                    let spec = spec_filter(&s);
+                    let (inv, sep) = TopicFilter::is_invalid(&s);
+                    let ok = TopicFilter::try_from(s.clone()).is_ok();
+                    if inv == spec.is_some() || ok != spec.is_some() || (spec.is_some() && sep as usize != spec.unwrap()) {
+                        rep.fail("filter-scalar", format!("tf {}", hex_or_dash(s.as_bytes())), format!("{:?} (U+{:04X}): is_invalid=({}, {}) try_from.is_ok={} but MQTT says {:?}", s, cp, inv, sep, ok, spec));
+                    }
                 }
             }
         }
@@ -612,6 +655,22 @@ pub fn c18(tier: &str, seed: u64, ops: Option<&[String]>) -> Report {
             }
         }
     }
+    if ops.is_none() {
+        // EVERY Unicode scalar value as a one-character name and embedded in a longer one
+        for cp in 0..=0x10ffffu32 {
+            if let Some(c) = char::from_u32(cp) {
+                rep.cases += 1;
+                for s in [c.to_string(), format!("a/{}b", c)] {
+                    let spec = spec_name(&s);
+                    let inv = TopicName::is_invalid(&s);
+                    let ok = TopicName::try_from(s.clone()).is_ok();
+                    if inv == spec || ok != spec {
+                        rep.fail("name-scalar", format!("tn {}", hex_or_dash(s.as_bytes())), format!("{:?} (U+{:04X}): is_invalid={} try_from.is_ok={} but MQTT says valid={}", s, cp, inv, ok, spec));
+                    }
+                }
+            }
+        }
+    }
     rep.sample("tn 612b (\"a+\") -> invalid".into());
     rep
 }
@@ -677,6 +736,7 @@ pub fn packet_oracle(prop: &str, tier: &str, seed: u64, ops: Option<&[String]>) 
                     if ops.is_none() {
                         po::pair_sweeps(&mut rep, true);
                         po::full_1d_sweeps(&mut rep, true);
+                        po::all_scalars(&mut rep);
                     }
                 }
                 "C02" => {
